@@ -287,4 +287,97 @@ def firstBadCode (T : Tab) : Option Nat :=
           | none => false)
     | none => true)
 
+/-! ### tables of sequences (`@apply_to_npdataclass("sequence")`, `bnp.replace`, lazy file-backed tables) -/
+
+/-- a table of entries as the sequence functions see it. `file` = the columns as parsed from the buffer
+(or the constructor arguments of an in-memory table), `sets` = the replacement dictionary of a lazy
+table (`_set_values`; empty for a table that was never touched) -/
+structure Table where
+  file : List (String × List Bytes)
+  sets : List (String × List Bytes)
+
+/-- `table.<column>` (`__getattr__`): a replaced column first, else the parsed one -/
+def Table.get (t : Table) (k : String) : Option (List Bytes) :=
+  match t.sets.lookup k with
+  | some v => some v
+  | none => t.file.lookup k
+
+/-- `bnp.replace(table, k=v)` (`__replace__`): `new_dict = dict(self._set_values); new_dict.update(k=v)` -
+the NEW value wins over an earlier replacement of the same column; the other columns are kept -/
+def Table.replace (t : Table) (k : String) (v : List Bytes) : Table :=
+  { t with sets := (k, v) :: t.sets.filter (fun p => p.1 != k) }
+
+/-- `x[idx]` for an index list, row-wise (out-of-range: not modelled, empty row) -/
+def selRows (p : List Nat) (rows : List Bytes) : List Bytes := p.map (fun i => rows.getD i [])
+
+/-- an operation applied to every column (`table[idx]`, `np.concatenate([table[:k], table[k:]])`) -/
+def Table.mapCols (f : List Bytes → List Bytes) (t : Table) : Table :=
+  ⟨t.file.map (fun p => (p.1, f p.2)), t.sets.map (fun p => (p.1, f p.2))⟩
+
+/-- one step of user code between / around the sequence functions -/
+inductive PStep where
+  | rc | translate | replace (rows : List Bytes) | same | idx (p : List Nat) | concat (k : Nat)
+
+/-- `apply_to_npdataclass("sequence")(f)(table) = replace(table, sequence=f(table.sequence))` -/
+def Table.applySeq (f : List Bytes → Option (List Bytes)) (t : Table) : Option Table :=
+  match t.get "sequence" with
+  | none => none
+  | some s => match f s with
+    | none => none
+    | some r => some (t.replace "sequence" r)
+
+def pipeStep (T : Tab) (tab : List Nat) (t : Table) : PStep → Option Table
+  | .rc => t.applySeq (revcompRagged T)
+  | .translate => t.applySeq (fun s => (translateRows tab s).toOption)
+  | .replace r => some (t.replace "sequence" r)
+  | .same => t.applySeq some
+  | .idx p => some (t.mapCols (selRows p))
+  | .concat k => some (t.mapCols (fun v => v.take k ++ v.drop k))
+
+/-- all stages of a pipeline, the start table first (every stage stays readable afterwards) -/
+def runPipe (T : Tab) (tab : List Nat) : Table → List PStep → Option (List Table)
+  | t, [] => some [t]
+  | t, s :: ss =>
+    match pipeStep T tab t s with
+    | none => none
+    | some t' => (runPipe T tab t' ss).map (fun rest => t :: rest)
+
+/-- the property's reading of one step, on the `sequence` column alone -/
+def specStepSeq (rows : List Bytes) : PStep → Option (List Bytes)
+  | .rc => some (rows.map specRevComp)
+  | .translate => omap specTranslate rows
+  | .replace r => some r
+  | .same => some rows
+  | .idx p => some (selRows p rows)
+  | .concat _ => some rows
+
+/-! ### derived interval objects (`GenomicIntervals`: the rows and the KIND flag `is_stranded`) -/
+
+structure GI where
+  ivs : List Iv
+  stranded : Bool
+
+inductive GStep where
+  | clip (sizes : List Nat) | idx (p : List Nat) | replaceSame | concat (k : Nat)
+
+def clipIv (sizes : List Nat) (iv : Iv) : Iv :=
+  { iv with stop := min (sizes.getD iv.chrom 0) iv.stop }
+
+/-- `clip()`, `gi[idx]`, `bnp.replace(gi, start=gi.start)`, `np.concatenate([gi[:k], gi[k:]])`: all of them rebuild the
+object with `self._is_stranded` -/
+def GI.step (g : GI) : GStep → GI
+  | .clip sizes => { g with ivs := g.ivs.map (clipIv sizes) }
+  | .idx p => { g with ivs := p.map (fun i => g.ivs.getD i ⟨0, 0, 0, 43⟩) }
+  | .replaceSame => g
+  | .concat k => { g with ivs := g.ivs.take k ++ g.ivs.drop k }
+
+/-- `GenomicLocation.get_windows(flank)`: `[p - flank, p + flank + 1)` clipped to the chromosome; strandedness of the
+locations is handed on -/
+def windows (sizes : List Nat) (flank : Nat) (locs : List (Nat × Nat × Nat)) (stranded : Bool) : GI :=
+  GI.step ⟨locs.map (fun l => ⟨l.1, l.2.1 - flank, l.2.1 + flank + 1, l.2.2⟩), stranded⟩ (.clip sizes)
+
+/-- `genomic_sequence[gi]` (`GenomicData.__getitem__`): stranded extraction iff the interval object says so -/
+def getitem (T : Tab) (seqs : List (List Nat)) (g : GI) : Option (List (List Nat)) :=
+  if g.stranded then extractStranded T seqs g.ivs else some (extractUnstranded seqs g.ivs)
+
 end C14
